@@ -335,31 +335,12 @@ func c06One(entry int, o c06Opts, src string, r *Rand, ops *[]c06Op) (msg string
 }
 
 // c06Class maps a failure to the class witness of an open known finding, or "".
-//   stopat-class newlit-after-refill — with a stop word that starts with a multi-byte rune, the
-//     stop-word test of Parser.next refills the buffer when that rune sits at its end; newLit then
-//     copies the rune's bytes from p.bs[p.bsp-w:p.bsp] with bsp == 0.
-//   recover-class arithm-unclosed-state — with RecoverErrors, arithmEnd (and the `$[` branch of wordPart)
-//     return on a recovered missing `))`/`]` without postNested: the lexer stays in arithmetic
-//     mode, whose literals do not reset p.eqlOffs; a later word is then sliced with the stale offset
-//     of an earlier assignment (`o=$((1 a`): getAssign / hasValidIdent index out of range.
-//   recover-class caseitem-no-patterns — with RecoverErrors, `case n in (` at EOF yields a CaseItem
-//     without patterns (the pattern loop does not run at EOF) and the missing `esac` is recovered:
-//     the returned tree is ill-formed, CaseItem.Pos() panics in Walk callbacks, Print and typedjson.
+// No in-process class is open: the three found while this package was built (RecoverErrors leaving
+// the arithmetic lexer state with a stale p.eqlOffs; RecoverErrors returning a CaseItem without
+// patterns; StopAt with a multi-byte stop word at the buffer edge) are fixed (637e874, cb62b3c)
+// and replayed from corpus/C06-fixed.txt.  The one open finding, the stack overflow on deep
+// nesting, is reported by the subprocess probe under its own class witness.
 func c06Class(o c06Opts, src, what string) string {
-	if o.stopAt != "" && o.stopAt[0] >= utf8.RuneSelf && strings.HasPrefix(what, "panic in (*Parser).newLit: runtime error: slice bounds out of range") {
-		return "stopat-class newlit-after-refill"
-	}
-	if o.recover == 0 {
-		return ""
-	}
-	if (strings.HasPrefix(what, "panic in (*Parser).getAssign: runtime error: slice bounds out of range") ||
-		strings.HasPrefix(what, "panic in (*Parser).hasValidIdent: runtime error: index out of range")) &&
-		(strings.Contains(src, "((") || strings.Contains(src, "$[")) && strings.Contains(src, "=") {
-		return "recover-class arithm-unclosed-state"
-	}
-	if strings.HasPrefix(what, "ill-formed node CaseItem{") && strings.Contains(what, "Patterns=0") {
-		return "recover-class caseitem-no-patterns"
-	}
 	return ""
 }
 
